@@ -47,6 +47,14 @@ static void susc_run(Ctx& c) {
         Pomerol::Susceptibility chi(*p.S, *p.H, A, B, *p.DM); chi.prepare(); chi.compute();
         if (c.k % 2 == 0) { chi.compute(); chi.prepare(); chi.compute(); }   // idempotent
         Pomerol::Susceptibility chicopy(chi);
+        // life cycle: copies taken at each stage and driven on by the remaining calls end up as the same function
+        Pomerol::Susceptibility SA(*p.S, *p.H, A, B, *p.DM);
+        Pomerol::Susceptibility SA0(SA); SA0.prepare(); SA0.compute();
+        SA.prepare(); Pomerol::Susceptibility SA1(SA); SA1.compute();
+        SA.compute(); Pomerol::Susceptibility SA2(SA); SA2.prepare(); SA2.compute();
+        { const Pomerol::Susceptibility* cp[] = {&SA0, &SA1, &SA2}; static const char* nm[] = {"of-constructed", "of-prepared", "of-computed"};
+          for (int w = 0; w < 3; ++w) for (long n : {0L, 1L, -3L}) { cd a = chi(n);
+              c.cmp("copy-then-compute", std::string("C14:copy-then-compute:") + nm[w], (*cp[w])(n), a, 1e-13 * (1 + std::abs(a)), [&] { return "Susceptibility copied when " + std::string(nm[w]) + " then prepared/computed, n=" + std::to_string(n); }); } }
         CMat AF = jw_quad(N, q[0], q[1]), BF = jw_quad(N, q[2], q[3]);
         CMat AR = ed.rot(AF), BR = ed.rot(BF);
         CMat AL = lb.U.adjoint() * AF * lb.U, BL = lb.U.adjoint() * BF * lb.U;
